@@ -115,7 +115,7 @@ func (ic *importClient) Send(ctx context.Context, s capnp.Send) (*capnp.Answer, 
 	ic.c.mu.Lock()
 	ic.c.unlockSender() // Can't be holding either lock while calling PlaceArgs.
 	ic.c.mu.Unlock()
-	params, err := ic.c.newImportCallMessage(msg, ic.id, q.id, s)
+	params, err := ic.c.newImportCallMessage(msg, ic.id, q, s)
 	if err != nil {
 		ic.c.mu.Lock()
 		ic.c.questions[q.id] = nil
@@ -164,12 +164,12 @@ func (ic *importClient) Send(ctx context.Context, s capnp.Send) (*capnp.Answer, 
 // newImportCallMessage builds a Call message targeted to an import.
 //
 // The caller MUST NOT be holding onto c.mu or the sender lock.
-func (c *Conn) newImportCallMessage(msg rpccp.Message, imp importID, qid questionID, s capnp.Send) (releaseList, error) {
+func (c *Conn) newImportCallMessage(msg rpccp.Message, imp importID, q *question, s capnp.Send) (releaseList, error) {
 	call, err := msg.NewCall()
 	if err != nil {
 		return nil, errorf("build call message: %v", err)
 	}
-	call.SetQuestionId(uint32(qid))
+	call.SetQuestionId(uint32(q.id))
 	call.SetInterfaceId(s.Method.InterfaceID)
 	call.SetMethodId(s.Method.MethodID)
 	target, err := call.NewTarget()
@@ -202,8 +202,7 @@ func (c *Conn) newImportCallMessage(msg rpccp.Message, imp importID, qid questio
 	}
 	clients, states := extractCapTable(m)
 	c.mu.Lock()
-	// TODO(soon): save param refs
-	_, err = c.fillPayloadCapTable(payload, clients, states)
+	q.paramRefs, err = c.fillPayloadCapTable(payload, clients, states)
 	c.mu.Unlock()
 	if err != nil {
 		releaseList(clients).release()
